@@ -56,6 +56,7 @@ type PlayOpts struct {
 	Policies []string // names; empty = any
 	MaxWait  time.Duration
 	NoJitter bool
+	OnSync   func(p *Play, t *pt.Table) // runs synchronously inside the engine's table-updated callback (engine goroutine)
 }
 
 // PlayMon are the oracle hooks of a check.
@@ -621,7 +622,12 @@ func RunPlayCfg(c *h.Ctx, cfg h.TableCfg, po PlayOpts, mon *PlayMon) *Play {
 		jit, jmax = 0.15, 400*time.Microsecond
 		c.Feature("callback-jitter")
 	}
-	ss, err := h.StartSessionJ(cfg, c.R, onEv, jit, jmax)
+	ss, err := h.StartSessionWith(cfg, c.R, onEv, func(sc *h.SimConfig) {
+		sc.Jitter, sc.JitterMax = jit, jmax
+		if po.OnSync != nil {
+			sc.OnSyncAfter = func(t *pt.Table) { po.OnSync(p, t) }
+		}
+	})
 	p.SS = ss
 	if err != nil {
 		c.Inconclusive(fmt.Sprintf("session did not start: %v cfg=%+v", err, cfg))
